@@ -14,6 +14,7 @@ Python, so here they live in a heap: object identities (`BId`, `PId`) and maps f
 | `blockText` (`style.cssText = text`) | `CSSStyleDeclaration._setCssText` `cssstyledeclaration.py:304-381` |
 | `setProp` (`style.setProperty(name, value, replace=…)`, `style[name] = value`) | `setProperty` `cssstyledeclaration.py:621-696`, `__setitem__` `:150-160` |
 | `setPropObj` (`style.setProperty(Property(name, value))`) | `:664-666`, `:672-693` |
+| `sharePropObj` (`style.setProperty(p)` with a Property object that a block holds) | `:664-666`, `:688-693` |
 | `removeProp` (`style.removeProperty(name)`, `del style[name]`) | `removeProperty` `:567-619`, `__delitem__` `:162-169` |
 | `parseItems` | the `ident` production `:319-335`: a property that is not well-formed is a SyntaxErr in raise mode and dropped in log-only mode |
 
@@ -164,6 +165,11 @@ def removePropAt (ds : DSt) (rid : Nat) (name : Cps) : DSt :=
     bprops := upd ds.bprops b keep,
     goneP := ds.goneP ++ rem }
 
+/-- `style.setProperty(p)` with a Property object that another block holds: `newp.parent = self`, appended -/
+def sharePropAt (ds : DSt) (rid : Nat) (p : PId) : DSt :=
+  let b := ds.style rid
+  { ds with ph := { ds.ph with parent := upd ds.ph.parent p (some b) }, bprops := upd ds.bprops b (ds.bprops b ++ [p]) }
+
 /-- is there a property with this name in the block of `rid` -/
 def hasProp (ds : DSt) (rid : Nat) (name : Cps) : Bool :=
   (ds.bprops (ds.style rid)).any (fun p => ds.ph.name p == name)
@@ -186,6 +192,8 @@ inductive DOp where
   | setPropObj (path : List Nat) (name : Cps)
   /-- `rule.style.removeProperty(name)` / `del rule.style[name]` -/
   | removeProp (path : List Nat) (name : Cps)
+  /-- `rule.style.setProperty(p)` where `p` is the `i`-th Property object of the block of the rule at `src` -/
+  | sharePropObj (path src : List Nat) (i : Nat)
 
 def dstep (ds : DSt) : DOp → DSt × Outcome
   | .sheet op =>
@@ -240,6 +248,17 @@ def dstep (ds : DSt) : DOp → DSt × Outcome
     | none => (ds, .badOp)
     | some rid => (removePropAt ds rid name, .none)
 
+  | .sharePropObj path src i =>
+    match styledAt ds.st path, styledAt ds.st src with
+    | some rid, some sid =>
+      match (ds.bprops (ds.style sid))[i]? with
+      | none => (ds, .badOp)
+      | some p =>
+        if (ds.ph.name p).isEmpty then (ds, .badOp)
+        else if hasProp ds rid (ds.ph.name p) then (ds, .none)                 -- updated in place (also: the same block)
+        else (sharePropAt ds rid p, .none)                                     -- `:688-693`
+    | _, _ => (ds, .badOp)
+
 def drun (ds : DSt) : List DOp → DSt
   | [] => ds
   | op :: ops => drun (dstep ds op).1 ops
@@ -265,10 +284,12 @@ structure DValid (ds : DSt) : Prop where
   links : DLinks ds
 
 /-- operations that hand in objects: rule objects well nested (`OpOK`); a declaration block handed to a rule is
-not the block of another rule (`shareStyle` hands in a contained object: see `share_style_breaks_links`) -/
+not the block of another rule (`shareStyle` hands in a contained object: see `share_style_breaks_links`), a Property
+object handed to a block is not held by a block (`sharePropObj`: see `share_property_breaks_links`) -/
 def DOpOK : DOp → Prop
   | .sheet op => OpOK op
   | .shareStyle path src => path = src
+  | .sharePropObj _ _ _ => False
   | _ => True
 
 end CssVerif.SheetEdit
